@@ -13,6 +13,7 @@ MERCURIUS / TRACE inertial<->dh) and the public move_to_com / move_to_hel.
 """
 import json, math, random
 from vf import core
+from vf.num import gt, nmax as max, nmin as min
 
 PROPERTY = "C12"
 EPS = 2.0 ** -52
@@ -150,7 +151,7 @@ def run_case(case):
             i = int(np.argmax(d.max(axis=1)))
             mech = 'transform:%s:slot0-is-not-total-mass-and-com' % sysname if i == 0 else 'transform:%s:forward-differs-from-definition' % sysname
             viol.append(dict(mech=mech, msg='element %d (N=%d N_active=%d): got %r, definition %r, tol %.3e' % (i, N, Na, got[i].tolist(), [float(q) for q in want[i, 0:6]], tol)))
-        if abs(out[0].m - float(Mact)) > 8 * EPS * N * float(Mact):
+        if gt(abs(out[0].m - float(Mact)), 8 * EPS * N * float(Mact)):
             viol.append(dict(mech='transform:%s:slot0-is-not-total-mass-and-com' % sysname, msg='slot 0 mass %r, sum of active masses %r (N=%d N_active=%d)' % (out[0].m, float(Mact), N, Na)))
     # ---------------- inverse posvel
     back = blank(keep_m=M)
